@@ -7,9 +7,10 @@ def run(tier):
     reps = list(normal_ded.reports(('C16',)))
     # which routine `belief_propagation` is bound to (convex flag -> Hazan-Peng-Shashua, otherwise generalised propagation)
     for rel, q, c in OW.ITEMS:
-        if q == 'RegionGraph.__init__':
+        if q in ('RegionGraph.__init__', 'FactorGraph.__init__'):
             reps.append(deductive.verify_function(rel, q, c, hooks=OW.hooks_for(c), prefix='%s::%s[oracle wiring]' % (rel, q)))
     reps.append(OW.frame_report())
+    reps += OW.fg_frame_reports()
     reps.append(OW.schedule_report())
     # the sum-product message equations of loopy belief propagation, value-level (pv/contracts/fgbp.py)
     from ..contracts import fgbp as FG
